@@ -243,6 +243,7 @@ package intermediate
 
 //@ func (a *AggregationProcess) addFieldsForStatsAggregation(record, fillSrcStats, fillDstStats) (err)
 //@   requires rec: recNN(record)
+//@   ensures  in:  old(inFields(a, record)) ==> inFields(a, record)
 //@   ensures  rec: recNN(record) && (old(flowKinds(record)) ==> flowKinds(record)) && record.(*dataRecord) == old(record.(*dataRecord))
 //@   ensures  arr: arr(recList(record)) == old(arr(recList(record))) || fresh(recList(record))
 //@   // fields are only appended: the record's elements so far stay in place, the new ones are freshly allocated objects
@@ -254,6 +255,8 @@ package intermediate
 
 //@ func (a *AggregationProcess) addFieldsForThroughputCalculation(record, fillSrcStats, fillDstStats) (err)
 //@   requires rec: recNN(record)
+//@   // after both helpers ran on a record that carries the exporter's fields, the record carries every aggregated field (what they are for)
+//@   ensures  ex:  err == nil && cfg(a) != nil && old(inFields(a, record)) ==> exFields(a, record) && inFields(a, record)
 //@   ensures  rec: recNN(record) && (old(flowKinds(record)) ==> flowKinds(record)) && record.(*dataRecord) == old(record.(*dataRecord))
 //@   ensures  arr: arr(recList(record)) == old(arr(recList(record))) || fresh(recList(record))
 //@   // fields are only appended: the record's elements so far stay in place, the new ones are freshly allocated objects
@@ -275,6 +278,8 @@ package intermediate
 //@   requires newkey: forall i in [0, len(a.expirePriorityQueue)): a.expirePriorityQueue[i].flowKey != flowKey || has(a.flowKeyRecordMap, mapkey(*flowKey))
 //@   requires newrec: forall k: has(a.flowKeyRecordMap, k) ==> distinctRec(a.flowKeyRecordMap[k].Record, record)
 //@   requires corr: has(a.flowKeyRecordMap, mapkey(*flowKey)) ==> corrOK(a, record, a.flowKeyRecordMap[mapkey(*flowKey)].Record)
+//@   requires agg:  has(a.flowKeyRecordMap, mapkey(*flowKey)) ==> aggOK(a, record, a.flowKeyRecordMap[mapkey(*flowKey)].Record)
+//@   requires infields: cfg(a) != nil ==> inFields(a, record)
 //@   let key = mapkey(*flowKey)
 //@   ensures  inv:  aggInv(a)
 //@   ensures  retry: aggRetry(a)
@@ -297,6 +302,8 @@ package intermediate
 //@   ensures  grow: len(recList(record)) >= old(len(recList(record))) && (forall j in [0, old(len(recList(record)))): recList(record)[j] == old(recList(record)[j]))
 //@                  && (forall j in [old(len(recList(record))), len(recList(record))): fresh(recList(record)[j].(*baseInfoElement)))
 //@   ensures  keepdistinct: old(distinctElems(record)) ==> distinctElems(record)
+//@   ensures  newex: err == nil && !old(has(a.flowKeyRecordMap, key)) && cfg(a) != nil ==> exFields(a, record)
+//@   ensures  cfgsame: cfg(a) == old(cfg(a))
 //@   ensures  heldlists: forall k: old(has(a.flowKeyRecordMap, k)) ==> recList(old(a.flowKeyRecordMap[k].Record)) == old(recList(a.flowKeyRecordMap[k].Record))
 //@   modifies a.mutex.held, $lastNow, a.flowKeyRecordMap[*], a.expirePriorityQueue, a.expirePriorityQueue[*], a.expirePriorityQueue[*].(*ItemToExpire).index,
 //@            a.flowKeyRecordMap[key].ReadyToSend, a.flowKeyRecordMap[key].areCorrelatedFieldsFilled,
@@ -386,6 +393,10 @@ package intermediate
 //@   requires distinct: (forall k: has(a.flowKeyRecordMap, k) ==> distinctElems(a.flowKeyRecordMap[k].Record)) && (forall i in [0, len(msgRecs(message))): distinctElems(msgRecs(message)[i]))
 //@   requires corrheld: forall i in [0, len(msgRecs(message))): forall k: has(a.flowKeyRecordMap, k) ==> corrOK(a, msgRecs(message)[i], a.flowKeyRecordMap[k].Record)
 //@   requires corrmsg: forall i in [0, len(msgRecs(message))): forall j in [0, len(msgRecs(message))): i != j ==> corrOK(a, msgRecs(message)[i], msgRecs(message)[j])
+//@   // what aggregation needs: a sane configuration, incoming records with the exporter's fields, held records with the aggregated fields
+//@   requires aggcfg:  cfg(a) != nil ==> statsLens(a) && statsNamesDistinct(a)
+//@   requires aggin:   cfg(a) != nil ==> (forall i in [0, len(msgRecs(message))): inFields(a, msgRecs(message)[i]))
+//@   requires aggheld: cfg(a) != nil ==> (forall k: has(a.flowKeyRecordMap, k) ==> exFields(a, a.flowKeyRecordMap[k].Record))
 //@   ensures  inv:  aggInv(a) && aggRetry(a)
 //@   ensures  recs: forall k: has(a.flowKeyRecordMap, k) ==> recNN(a.flowKeyRecordMap[k].Record) && flowKinds(a.flowKeyRecordMap[k].Record)
 //@   ensures  lock: !a.mutex.held && !a.mutex.rheld
@@ -402,7 +413,10 @@ package intermediate
 //@   loop 1 invariant ch3: forall i in [$i, len(msgRecs(message))): forall k: has(a.flowKeyRecordMap, k) ==> sameKindCF(a, msgRecs(message)[i], a.flowKeyRecordMap[k].Record)
 //@   loop 1 invariant ch4: forall i in [$i, len(msgRecs(message))): forall k: has(a.flowKeyRecordMap, k) ==> presentCF(a, msgRecs(message)[i], a.flowKeyRecordMap[k].Record)
 //@   loop 1 invariant corrmsg: forall i in [$i, len(msgRecs(message))): forall j in [$i, len(msgRecs(message))): i != j ==> corrOK(a, msgRecs(message)[i], msgRecs(message)[j])
-//@   loop 1 invariant cf: a.correlateFields == old(a.correlateFields)
+//@   loop 1 invariant cf: a.correlateFields == old(a.correlateFields) && cfg(a) == old(cfg(a))
+//@   loop 1 invariant aggcfg:  cfg(a) != nil ==> statsLens(a) && statsNamesDistinct(a)
+//@   loop 1 invariant aggin:   cfg(a) != nil ==> (forall i in [$i, len(msgRecs(message))): inFields(a, msgRecs(message)[i]))
+//@   loop 1 invariant aggheld: cfg(a) != nil ==> (forall k: has(a.flowKeyRecordMap, k) ==> exFields(a, a.flowKeyRecordMap[k].Record))
 
 // ---------------------------------------------------------------------------
 // Aggregation arithmetic (C05)
@@ -446,17 +460,27 @@ package intermediate
 //@     && (forall i in [0, len(cfg(a).StatsElements)): forall t in [0, len(cfg(a).ThroughputElements)):
 //@         cfg(a).AggregatedSourceStatsElements[i] != cfg(a).ThroughputElements[t] && cfg(a).AggregatedSourceStatsElements[i] != cfg(a).SourceThroughputElements[t] && cfg(a).AggregatedSourceStatsElements[i] != cfg(a).DestinationThroughputElements[t]
 //@         && cfg(a).AggregatedDestinationStatsElements[i] != cfg(a).ThroughputElements[t] && cfg(a).AggregatedDestinationStatsElements[i] != cfg(a).SourceThroughputElements[t] && cfg(a).AggregatedDestinationStatsElements[i] != cfg(a).DestinationThroughputElements[t])
-//@ // the existing (aggregated) record carries every configured field with its registry type; the incoming record carries the exporter's fields
-//@ pure aggFields(a *AggregationProcess, rin entities.Record, rex entities.Record) bool =
-//@     hasName(rin, "flowEndSeconds") && kind32(rin, "flowEndSeconds") && hasName(rex, "flowEndSeconds") && kind32(rex, "flowEndSeconds")
-//@     && hasName(rin, "flowStartSeconds") && kind32(rin, "flowStartSeconds")
+//@ // inFields: an incoming record carries the exporter's fields; exFields: an aggregated record carries every configured per-node, common and
+//@ // throughput field, each with its registry type
+//@ // every configured non-statistic element (flowEndSeconds, flowEndReason, tcpState, httpVals in the usual configuration) is present
+//@ pure allNS(a *AggregationProcess, r entities.Record) bool = forall k in [0, len(cfg(a).NonStatsElements)): hasName(r, cfg(a).NonStatsElements[k])
+//@ pure inFields(a *AggregationProcess, rin entities.Record) bool =
+//@     hasName(rin, "flowEndSeconds") && kind32(rin, "flowEndSeconds") && hasName(rin, "flowStartSeconds") && kind32(rin, "flowStartSeconds")
+//@     && (forall i in [0, len(cfg(a).StatsElements)): hasName(rin, cfg(a).StatsElements[i]) && kind64(rin, cfg(a).StatsElements[i]))
+//@     && kindU8(rin, "flowEndReason") && kindStr(rin, "tcpState") && kindStr(rin, "httpVals") && allNS(a, rin)
+//@ pure exFields(a *AggregationProcess, rex entities.Record) bool =
+//@     hasName(rex, "flowEndSeconds") && kind32(rex, "flowEndSeconds")
 //@     && hasName(rex, "flowEndSecondsFromSourceNode") && kind32(rex, "flowEndSecondsFromSourceNode") && hasName(rex, "flowEndSecondsFromDestinationNode") && kind32(rex, "flowEndSecondsFromDestinationNode")
-//@     && (forall i in [0, len(cfg(a).StatsElements)): hasName(rin, cfg(a).StatsElements[i]) && kind64(rin, cfg(a).StatsElements[i]) && hasName(rex, cfg(a).StatsElements[i]) && kind64(rex, cfg(a).StatsElements[i])
+//@     && (forall i in [0, len(cfg(a).StatsElements)): hasName(rex, cfg(a).StatsElements[i]) && kind64(rex, cfg(a).StatsElements[i])
 //@         && hasName(rex, cfg(a).AggregatedSourceStatsElements[i]) && kind64(rex, cfg(a).AggregatedSourceStatsElements[i])
 //@         && hasName(rex, cfg(a).AggregatedDestinationStatsElements[i]) && kind64(rex, cfg(a).AggregatedDestinationStatsElements[i]))
 //@     && (forall i in [0, len(cfg(a).ThroughputElements)): hasName(rex, cfg(a).ThroughputElements[i]) && kind64(rex, cfg(a).ThroughputElements[i])
 //@         && hasName(rex, cfg(a).SourceThroughputElements[i]) && kind64(rex, cfg(a).SourceThroughputElements[i])
 //@         && hasName(rex, cfg(a).DestinationThroughputElements[i]) && kind64(rex, cfg(a).DestinationThroughputElements[i]))
+//@     && kindU8(rex, "flowEndReason") && kindStr(rex, "tcpState") && kindStr(rex, "httpVals") && allNS(a, rex)
+//@ pure aggFields(a *AggregationProcess, rin entities.Record, rex entities.Record) bool = inFields(a, rin) && exFields(a, rex)
+//@ // aggOK: what aggregateRecords needs of the configuration, an incoming record and the record held for its flow
+//@ pure aggOK(a *AggregationProcess, rin entities.Record, rex entities.Record) bool = cfg(a) != nil ==> statsLens(a) && statsNamesDistinct(a) && aggFields(a, rin, rex)
 
 //@ pure isDeltaName(n string) bool = contains(n, "Delta")
 //@ // 64-bit unsigned addition of two in-range values wraps at most once
@@ -476,10 +500,13 @@ package intermediate
 //@     isFirst(rin, "flowEndSeconds", j) && isFirst(rex, nodeEndName(src), l) && isFirst(rin, "flowStartSeconds", s) ==>
 //@     u32v(recList(rin)[j]) > (u32v(recList(rex)[l]) == 0 ? u32v(recList(rin)[s]) : u32v(recList(rex)[l]))
 
+//@ pure kindU8(r entities.Record, name string) bool = forall j in [0, len(recList(r))): ie(recList(r)[j]).Name == name ==> dt(recList(r)[j]) == Unsigned8
+//@ pure kindStr(r entities.Record, name string) bool = forall j in [0, len(recList(r))): ie(recList(r)[j]).Name == name ==> dt(recList(r)[j]) == String
+
 //@ func (a *AggregationProcess) aggregateRecords(incomingRecord, existingRecord, fillSrcStats, fillDstStats) (err)
 //@   requires a:    a != nil
 //@   requires rec:  recNN(incomingRecord) && recNN(existingRecord) && distinctElems(existingRecord) && disjointElems(incomingRecord, existingRecord)
-//@   requires cfg:  cfg(a) != nil ==> statsLens(a) && statsNamesDistinct(a) && aggFields(a, incomingRecord, existingRecord) && len(cfg(a).NonStatsElements) == 0
+//@   requires cfg:  aggOK(a, incomingRecord, existingRecord)
 //@   ensures  nocfg: cfg(a) == nil ==> err == nil
 //@   // the aggregated record carries the latest end time
 //@   ensures  endtime: cfg(a) != nil ==> (forall j in [0, len(recList(incomingRecord))): forall l in [0, len(recList(existingRecord))): isFirst(incomingRecord, "flowEndSeconds", j) && isFirst(existingRecord, "flowEndSeconds", l) ==>
@@ -496,7 +523,9 @@ package intermediate
 //@   modifies recList(existingRecord)[*].(*StringInfoElement).value, recList(existingRecord)[*].(*Unsigned8InfoElement).value,
 //@            recList(existingRecord)[*].(*Unsigned32InfoElement).value, recList(existingRecord)[*].(*Unsigned64InfoElement).value,
 //@            recList(existingRecord)[*].(*DateTimeSecondsInfoElement).value
-//@   loop 1 invariant none: 0 <= $i && $i <= len(cfg(a).NonStatsElements)
+//@   loop 1 invariant cnt:  0 <= $i && $i <= len(cfg(a).NonStatsElements) && (flowEndSecondsDiff > 0)
+//@   loop 1 invariant end:  forall j in [0, len(recList(incomingRecord))): forall l in [0, len(recList(existingRecord))): isFirst(incomingRecord, "flowEndSeconds", j) && isFirst(existingRecord, "flowEndSeconds", l) ==>
+//@                  u32v(recList(existingRecord)[l]) == max(old(u32v(recList(existingRecord)[l])), u32v(recList(incomingRecord)[j]))
 //@   loop 2 invariant cnt:  0 <= $i && $i <= len(statsElementList) && statsElementList == cfg(a).StatsElements && antreaSourceStatsElements == cfg(a).AggregatedSourceStatsElements && antreaDestinationStatsElements == cfg(a).AggregatedDestinationStatsElements
 //@   loop 2 invariant end:  forall j in [0, len(recList(incomingRecord))): forall l in [0, len(recList(existingRecord))): isFirst(incomingRecord, "flowEndSeconds", j) && isFirst(existingRecord, "flowEndSeconds", l) ==>
 //@                  u32v(recList(existingRecord)[l]) == max(old(u32v(recList(existingRecord)[l])), u32v(recList(incomingRecord)[j]))
@@ -512,3 +541,49 @@ package intermediate
 //@   loop 3 invariant dstkept: !fillDstStats ==> nodeStatKept(a, existingRecord, i0, l0, false)
 //@   loop 3 invariant end:  forall j in [0, len(recList(incomingRecord))): forall l in [0, len(recList(existingRecord))): isFirst(incomingRecord, "flowEndSeconds", j) && isFirst(existingRecord, "flowEndSeconds", l) ==>
 //@                  u32v(recList(existingRecord)[l]) == max(old(u32v(recList(existingRecord)[l])), u32v(recList(incomingRecord)[j]))
+
+//@ // zeroAt / keptAt: the first element called name (element l) holds zero / its value on entry
+//@ pure zeroAt(r entities.Record, name string, l int) bool = 0 <= l && l < len(recList(r)) && isFirst(r, name, l) ==> u64v(recList(r)[l]) == 0
+//@ pure keptAt(r entities.Record, name string, l int) bool = 0 <= l && l < len(recList(r)) && isFirst(r, name, l) ==> u64v(recList(r)[l]) == old(u64v(recList(r)[l]))
+//@ pure thrNamesDistinct(a *AggregationProcess) bool = forall i in [0, len(cfg(a).StatsElements)): forall t in [0, len(cfg(a).ThroughputElements)):
+//@     cfg(a).StatsElements[i] != cfg(a).ThroughputElements[t] && cfg(a).StatsElements[i] != cfg(a).SourceThroughputElements[t] && cfg(a).StatsElements[i] != cfg(a).DestinationThroughputElements[t]
+//@ pure thrNamesDistinct2(a *AggregationProcess) bool = forall t in [0, len(cfg(a).ThroughputElements)): forall u in [0, len(cfg(a).ThroughputElements)):
+//@     (t != u ==> cfg(a).ThroughputElements[t] != cfg(a).ThroughputElements[u] && cfg(a).SourceThroughputElements[t] != cfg(a).SourceThroughputElements[u] && cfg(a).DestinationThroughputElements[t] != cfg(a).DestinationThroughputElements[u])
+//@     && cfg(a).ThroughputElements[t] != cfg(a).SourceThroughputElements[u] && cfg(a).ThroughputElements[t] != cfg(a).DestinationThroughputElements[u] && cfg(a).SourceThroughputElements[t] != cfg(a).DestinationThroughputElements[u]
+
+//@ // a reset clears the delta counters (common and per node) and the throughput fields, and nothing else: total counters keep their values
+//@ func (a *AggregationProcess) ResetStatAndThroughputElementsInRecord(record) (err)
+//@   requires a:    a != nil && cfg(a) != nil && statsLens(a) && statsNamesDistinct(a) && thrNamesDistinct(a) && thrNamesDistinct2(a)
+//@   requires rec:  recNN(record) && distinctElems(record) && exFields(a, record)
+//@   given i0, l0
+//@   ensures  ok:   err == nil
+//@   ensures  delta: err == nil && 0 <= i0 && i0 < len(cfg(a).StatsElements) && isDeltaName(cfg(a).StatsElements[i0]) ==>
+//@                  zeroAt(record, cfg(a).StatsElements[i0], l0) && zeroAt(record, cfg(a).AggregatedSourceStatsElements[i0], l0) && zeroAt(record, cfg(a).AggregatedDestinationStatsElements[i0], l0)
+//@   ensures  total: 0 <= i0 && i0 < len(cfg(a).StatsElements) && !isDeltaName(cfg(a).StatsElements[i0]) ==>
+//@                  keptAt(record, cfg(a).StatsElements[i0], l0) && keptAt(record, cfg(a).AggregatedSourceStatsElements[i0], l0) && keptAt(record, cfg(a).AggregatedDestinationStatsElements[i0], l0)
+//@   ensures  thr:  err == nil && 0 <= i0 && i0 < len(cfg(a).ThroughputElements) ==>
+//@                  zeroAt(record, cfg(a).ThroughputElements[i0], l0) && zeroAt(record, cfg(a).SourceThroughputElements[i0], l0) && zeroAt(record, cfg(a).DestinationThroughputElements[i0], l0)
+//@   modifies recList(record)[*].(*Unsigned64InfoElement).value
+//@   loop 1 invariant cnt:  0 <= $i && $i <= len(statsElementList) && statsElementList == cfg(a).StatsElements && antreaSourceStatsElements == cfg(a).AggregatedSourceStatsElements && antreaDestinationStatsElements == cfg(a).AggregatedDestinationStatsElements
+//@   loop 1 invariant done: 0 <= i0 && i0 < $i && isDeltaName(cfg(a).StatsElements[i0]) ==>
+//@                  zeroAt(record, cfg(a).StatsElements[i0], l0) && zeroAt(record, cfg(a).AggregatedSourceStatsElements[i0], l0) && zeroAt(record, cfg(a).AggregatedDestinationStatsElements[i0], l0)
+//@   loop 1 invariant todo: 0 <= i0 && i0 < len(cfg(a).StatsElements) && (i0 >= $i || !isDeltaName(cfg(a).StatsElements[i0])) ==>
+//@                  keptAt(record, cfg(a).StatsElements[i0], l0) && keptAt(record, cfg(a).AggregatedSourceStatsElements[i0], l0) && keptAt(record, cfg(a).AggregatedDestinationStatsElements[i0], l0)
+//@   loop 1 invariant thrkept: 0 <= i0 && i0 < len(cfg(a).ThroughputElements) ==>
+//@                  keptAt(record, cfg(a).ThroughputElements[i0], l0) && keptAt(record, cfg(a).SourceThroughputElements[i0], l0) && keptAt(record, cfg(a).DestinationThroughputElements[i0], l0)
+//@   loop 2 invariant cnt:  0 <= $i && $i <= 3 && 0 <= i && i < len(statsElementList) && isDelta && statsElementList == cfg(a).StatsElements && antreaSourceStatsElements == cfg(a).AggregatedSourceStatsElements && antreaDestinationStatsElements == cfg(a).AggregatedDestinationStatsElements
+//@   loop 2 invariant cur:  i0 == i ==> ($i > 0 ? zeroAt(record, cfg(a).StatsElements[i], l0) : keptAt(record, cfg(a).StatsElements[i], l0)) && ($i > 1 ? zeroAt(record, cfg(a).AggregatedSourceStatsElements[i], l0) : keptAt(record, cfg(a).AggregatedSourceStatsElements[i], l0)) && ($i > 2 ? zeroAt(record, cfg(a).AggregatedDestinationStatsElements[i], l0) : keptAt(record, cfg(a).AggregatedDestinationStatsElements[i], l0))
+//@   loop 2 invariant done: 0 <= i0 && i0 < i && isDeltaName(cfg(a).StatsElements[i0]) ==> zeroAt(record, cfg(a).StatsElements[i0], l0) && zeroAt(record, cfg(a).AggregatedSourceStatsElements[i0], l0) && zeroAt(record, cfg(a).AggregatedDestinationStatsElements[i0], l0)
+//@   loop 2 invariant todo: 0 <= i0 && i0 < len(cfg(a).StatsElements) && (i0 > i || (i0 < i && !isDeltaName(cfg(a).StatsElements[i0]))) ==> keptAt(record, cfg(a).StatsElements[i0], l0) && keptAt(record, cfg(a).AggregatedSourceStatsElements[i0], l0) && keptAt(record, cfg(a).AggregatedDestinationStatsElements[i0], l0)
+//@   loop 2 invariant thrkept: 0 <= i0 && i0 < len(cfg(a).ThroughputElements) ==> keptAt(record, cfg(a).ThroughputElements[i0], l0) && keptAt(record, cfg(a).SourceThroughputElements[i0], l0) && keptAt(record, cfg(a).DestinationThroughputElements[i0], l0)
+//@   loop 3 invariant cnt:  0 <= $i && $i <= len(throughputElements) && throughputElements == cfg(a).ThroughputElements && sourceThroughputElements == cfg(a).SourceThroughputElements && destinationThroughputElements == cfg(a).DestinationThroughputElements
+//@   loop 3 invariant stats: (0 <= i0 && i0 < len(cfg(a).StatsElements) && isDeltaName(cfg(a).StatsElements[i0]) ==> zeroAt(record, cfg(a).StatsElements[i0], l0) && zeroAt(record, cfg(a).AggregatedSourceStatsElements[i0], l0) && zeroAt(record, cfg(a).AggregatedDestinationStatsElements[i0], l0))
+//@                  && (0 <= i0 && i0 < len(cfg(a).StatsElements) && !isDeltaName(cfg(a).StatsElements[i0]) ==> keptAt(record, cfg(a).StatsElements[i0], l0) && keptAt(record, cfg(a).AggregatedSourceStatsElements[i0], l0) && keptAt(record, cfg(a).AggregatedDestinationStatsElements[i0], l0))
+//@   loop 3 invariant done: 0 <= i0 && i0 < $i ==> zeroAt(record, cfg(a).ThroughputElements[i0], l0) && zeroAt(record, cfg(a).SourceThroughputElements[i0], l0) && zeroAt(record, cfg(a).DestinationThroughputElements[i0], l0)
+//@   loop 3 invariant todo: $i <= i0 && i0 < len(cfg(a).ThroughputElements) ==> keptAt(record, cfg(a).ThroughputElements[i0], l0) && keptAt(record, cfg(a).SourceThroughputElements[i0], l0) && keptAt(record, cfg(a).DestinationThroughputElements[i0], l0)
+//@   loop 4 invariant cnt:  0 <= $i && $i <= 3 && 0 <= i && i < len(throughputElements) && throughputElements == cfg(a).ThroughputElements && sourceThroughputElements == cfg(a).SourceThroughputElements && destinationThroughputElements == cfg(a).DestinationThroughputElements
+//@   loop 4 invariant stats: (0 <= i0 && i0 < len(cfg(a).StatsElements) && isDeltaName(cfg(a).StatsElements[i0]) ==> zeroAt(record, cfg(a).StatsElements[i0], l0) && zeroAt(record, cfg(a).AggregatedSourceStatsElements[i0], l0) && zeroAt(record, cfg(a).AggregatedDestinationStatsElements[i0], l0))
+//@                  && (0 <= i0 && i0 < len(cfg(a).StatsElements) && !isDeltaName(cfg(a).StatsElements[i0]) ==> keptAt(record, cfg(a).StatsElements[i0], l0) && keptAt(record, cfg(a).AggregatedSourceStatsElements[i0], l0) && keptAt(record, cfg(a).AggregatedDestinationStatsElements[i0], l0))
+//@   loop 4 invariant cur:  i0 == i ==> ($i > 0 ? zeroAt(record, cfg(a).ThroughputElements[i], l0) : keptAt(record, cfg(a).ThroughputElements[i], l0)) && ($i > 1 ? zeroAt(record, cfg(a).SourceThroughputElements[i], l0) : keptAt(record, cfg(a).SourceThroughputElements[i], l0)) && ($i > 2 ? zeroAt(record, cfg(a).DestinationThroughputElements[i], l0) : keptAt(record, cfg(a).DestinationThroughputElements[i], l0))
+//@   loop 4 invariant done: 0 <= i0 && i0 < i ==> zeroAt(record, cfg(a).ThroughputElements[i0], l0) && zeroAt(record, cfg(a).SourceThroughputElements[i0], l0) && zeroAt(record, cfg(a).DestinationThroughputElements[i0], l0)
+//@   loop 4 invariant todo: i < i0 && i0 < len(cfg(a).ThroughputElements) ==> keptAt(record, cfg(a).ThroughputElements[i0], l0) && keptAt(record, cfg(a).SourceThroughputElements[i0], l0) && keptAt(record, cfg(a).DestinationThroughputElements[i0], l0)
